@@ -85,6 +85,12 @@ CHECKS.update({
          "Field text free of tab/newline/;/=; features have at least one attribute.", "§5 C14"),
 })
 
+CHECKS.update({
+ "C02": ("bounded exhaustive enumeration of location expression trees through three seams against a strict INSDC reader/evaluator",
+         "ALL expression trees with at most 3 operators and at most 2 leaves (3 leaves thorough) over the complete leaf alphabet of a 6-base parent (21 spans + 6 single bases), every single-span partial marking, plus 3- and 4-leaf trees, joins of 4..6 operands and depth-4 nestings over leaf subsets, on two parents (and a 2000-base parent), each (a) as text through the real genbank.Parse of a minimal record and Feature.GetSequence, (b) as a structure through AddFeature/GetSequence, (c) written by BuildLocationString and read back by a strict independent INSDC parser: same bases, same partial ends.",
+         "Oracle grammar/evaluator; arities >= 4 only over reduced leaf sets; one open known finding (a..b> writer form).", "§5 C02"),
+})
+
 NOT_YET = {}
 
 props = [json.loads(l) for l in open('/verif/properties.jsonl')]
